@@ -92,14 +92,16 @@ def sortRel (ω : Oracle) (src out : Frame) (by_ : List Str) (asc : Bool) : Bool
 own input and output: returns the property key and whether the observed outcome satisfies it -/
 def relSpec (ω : Oracle) (pre : Pool) (op : Op) (status : String) (post : Pool) : Option (String × Bool) :=
   let res := post.getLast?.getD []
+  -- a request that must be refused: an error, and every live frame exactly as it was
+  let refused : Bool := status == "err" && post == pre
   let derivedOk (exp : Frame) : Bool := status == "ok" && post.length == pre.length + 1 && frameApprox exp res
   let mutOk (t : Nat) (exp : Frame) : Bool := status == "ok" && frameApprox exp (post.getD t [])
   let optD (e : Option Frame) : Bool := match e with
     | some x => derivedOk x
-    | none => status == "err"
+    | none => refused
   let optM (t : Nat) (e : Option Frame) : Bool := match e with
     | some x => mutOk t x
-    | none => status == "err"
+    | none => refused
   match op with
   | .head t n => pre[t]?.map (fun f => ("c08", derivedOk (Spec.headSpec f n)))
   | .tail t n => pre[t]?.map (fun f => ("c08", derivedOk (Spec.tailSpec f n)))
@@ -119,11 +121,11 @@ def relSpec (ω : Oracle) (pre : Pool) (op : Op) (status : String) (post : Pool)
     | some l, some r => some ("c03", optD (Spec.joinSpec kind l r key))
     | _, _ => none
   | .sortValues t by_ asc => pre[t]?.map (fun f =>
-      ("c06", if by_.any (fun k => !f.has k) then status == "err"
+      ("c06", if by_.any (fun k => !f.has k) then refused
               else status == "ok" && post.length == pre.length + 1 && Spec.sortSpec ω f res by_ asc))
   | .dedup t sub keep ip => pre[t]?.map (fun f =>
       ("c07", match Spec.dedupSpec f sub keep with
-        | none => status == "err"
+        | none => refused
         | some e => if ip then mutOk t e else derivedOk e))
   | _ => none
 
